@@ -57,7 +57,7 @@ def gen_cases(tier, seed):
                         shape[m] = s
                 if int(np.prod(shape)) > 300:
                     continue
-                for kind in ("generic", "symmetric", "almost"):
+                for kind in ("generic", "symmetric", "almost", "first-group-symmetric", "last-group-symmetric", "nearly"):
                     yield {"w": "dense", "shape": shape, "groups": groups, "kind": kind, "shuffle_groups": bool(rng.integers(0, 2)),
                            "cseed": int(seed) * 141650939 % (2 ** 31) + next(cs)}
     for N in range(2, maxN):
@@ -83,6 +83,16 @@ def run_case(case, ctx):
             pos = tuple(int(rng.integers(0, s)) for s in shape)
             A = A.copy()
             A[pos] += 0.5
+    if case["kind"] == "first-group-symmetric":
+        A = refops.symmetrize(A, groups[:1])
+    elif case["kind"] == "last-group-symmetric":
+        A = refops.symmetrize(A, groups[-1:])
+    elif case["kind"] == "nearly":
+        # symmetric up to a relative perturbation of one entry far below any tolerance-based comparison
+        A = refops.symmetrize(A, groups)
+        pos = tuple(int(rng.integers(0, s)) for s in shape)
+        A = A.copy()
+        A[pos] *= (1 + 1e-9)
     is_sym = refops.is_symmetric(A, groups)
     full = (sorted(m for g in groups for m in g) == list(range(N))) and len(groups) == 1
     ctx.feat(N=N, ngroups=len(groups), glen=len(groups[0]), full_group=full, kind=case["kind"], proper_subgroup=not full)
